@@ -12,9 +12,11 @@ TRUSTED_BASE = [
 CLUSTER_RULE = (
     "cluster stream: random closed-loop schedules (960 quick / 16000 thorough, ~350-600 operations each) over clusters of "
     "1..5 voters (+learner, +joiners up to 6 ids), random PreVote/CheckQuorum/async/StepDownOnRemoval/size-limit settings, "
-    "phases healthy/chaos/partition/crashy/confchange/snapshots/transfer/reads/limits, plus the corpus; every call into a "
-    "RawNode or its MemoryStorage is replayed on the extracted model and compared key by key; distinct_nontrivial = number of "
-    "distinct (operation kind, role before, message type, result) tuples exercised")
+    "(1 in 24: 8..9 voters), phases healthy/chaos/partition/crashy/confchange/snapshots/transfer/reads/limits/stall/dsnap/fig8snap, plus the corpus; every call into a "
+    "RawNode or its MemoryStorage is replayed on the extracted model and compared key by key; two schedules out of three end with a "
+    "fault-free suffix (C15). distinct_nontrivial = number of distinct schedules (distinct seeds and configurations) in which this "
+    "property's monitor evaluated at least one event relevant to it (events and counts: coverage.per_tag.monitor_events; for C14/C18/C19 every "
+    "schedule counts: every call runs under recover(), uses the storage, and is executed twice), plus the distinct cases of the property's pure streams")
 
 PROPS = {
     "C12": {
@@ -51,7 +53,7 @@ def _p(pid, level, expl, assume, extra=None):
         "props": "Props/%s.v" % pid,
         "level": level,
         "cluster": True,
-        "rule": CLUSTER_RULE,
+        "rule": CLUSTER_RULE + ("; " + extra["rule_extra"] if extra and "rule_extra" in extra else ""),
         "explanation": expl + " " + _TIE,
         "assumptions": assume + _COMMON_ASSUME,
     }
@@ -138,20 +140,39 @@ _p("C13", "proof",
    "Proved (Props/C13.v) for every tracker state and change list: an accepted Simple / EnterJoint / LeaveJoint yields a configuration satisfying the "
    "invariants of checkInvariants (as a proposition: members have progress, staged learners are outgoing voters and not learners, learners are "
    "disjoint from both voter sets, non-joint implies no staging and no auto-leave), keeps an incoming voter, Simple changes the voter set by at "
-   "most one; a rejected change yields no configuration. Restore round-trip and 'non-members have no progress' are covered by the lockstep tie only.", [])
+   "most one; a rejected change yields no configuration. The confchange stream runs exhaustive short and random long sequences of Simple / "
+   "EnterJoint / LeaveJoint / Restore (unknown types, zero ids, duplicates, demotions in joint state, odd ConfStates) on confchange.Changer of "
+   "/repo and on the model, compares every result, and evaluates the property itself on every accepted result of the implementation "
+   "(disjointness, staging, exactly the members have progress, an incoming voter remains, Simple alters at most one voter, input untouched, "
+   "ConfState round trip).", [],
+   {"pure": {"confchange": {"tags": ["CC"]}},
+    "rule_extra": "confchange stream: every list of up to two changes over ids 1..4 as Simple and as EnterJoint (both auto-leave settings) from 6 "
+                  "start configurations, plus 3000 (thorough 60000) random sequences of 2..9 operations"})
 _p("C14", "exploration",
    "No-panic under contract-respecting usage is EXPLORED: every call on every generated schedule is made under recover(); any panic is a violation "
    "unless classified as a known finding. Every panic site of the modelled code is an explicit Panic result of the model and panic/no-panic is "
    "compared in lockstep. Proved locally (Props/C14.v): the nested Step never reaches the model's recursion leaf; Inflights.Add full; writes keep storage well formed.",
    ["Env.cc_keeps_voter, Env.snapshot_sound, Env.snap_before_entries, Env.apply_before_snap_step (DESIGN.md 3.3) are enforced by the generator"])
 _p("C15", "exploration",
-   "Convergence after faults stop is EXPLORED, not proved. Proved (Props/C15.v): heartbeat responses un-pause a follower; a pending transfer is aborted "
-   "when the election timeout elapses.", [])
+   "Convergence after faults stop is EXPLORED, not proved (a liveness property of the whole group; the Coq development has no fairness/time "
+   "model). Two random schedules out of three end with a fault-free suffix (operation 'heal', harness/cmd/cluster/converge.go): partitions are "
+   "lifted, every member of the most advanced applied (hence committed) configuration is (re)started, nodes outside it are stopped, and then "
+   "every round ticks every node, runs every Ready cycle, delivers every message, reports every snapshot outcome (a leader's application offers "
+   "a snapshot of what it has applied). Within 40 election timeouts the check demands: exactly one leader among the members, no pending "
+   "transfer, same term and leader everywhere, equal last (index, term), commit = applied = last index on every member, no unstable entries or "
+   "snapshot, no auto-leave joint configuration left, equal configurations, every follower in StateReplicate with Match = last index, not paused, "
+   "no pending snapshot; then three proposals at the leader must be applied by every member within 12 more election timeouts. The README exception "
+   "(a survivor whose two-voter configuration half still contains a removed node) is recognised and skipped. Proved (Props/C15.v): heartbeat "
+   "responses un-pause a follower; a pending transfer is aborted when the election timeout elapses.",
+   ["the fault-free suffix assumes a cooperative application: the leader's storage offers a snapshot covering its applied index and membership when one must be sent"])
 _p("C16", "proof",
    "Proved (Props/C16.v): limitSize / raftLog.slice / entries return within the budget or a single entry, for every log and storage; every MsgApp "
    "queued by maybeSendAppend respects MaxSizePerMsg or carries one entry and nothing is sent in StateSnapshot; the uncommitted-size rule "
    "(exact refusal condition, refusal changes nothing); Inflights never exceeds its size, Add on a full window is refused. The per-follower "
-   "window over a whole leadership is monitored.", [])
+   "window over a whole leadership is monitored; the inflights stream compares tracker.Inflights with the model and with an abstract window "
+   "(count, Full, panic exactly on Add to a full window) over random Add / FreeLE / reset sequences.", [],
+   {"pure": {"inflights": {"tags": ["IF"]}},
+    "rule_extra": "inflights stream: 4000 (thorough 80000) random sequences of 3..32 operations, sizes 1..16, byte limits 0/10/100"})
 _p("C17", "proof",
    "Proved for every state and message (Props/C17.v): a pre-vote request never changes term or vote; becoming pre-candidate neither; with PreVote a "
    "MsgHup does not raise the term; a pre-candidate raises its term only on a completed tally over the joint configuration; inside the leader lease "
@@ -161,7 +182,11 @@ _p("C18", "proof",
    "Proved (Props/C18.v): MemoryStorage refines an abstract log (base + consecutive entries): Term / Entries answer exactly as the abstract log with "
    "ErrCompacted / ErrUnavailable exactly outside the range, size-limited non-empty prefixes; Append (truncate-and-append), Compact, ApplySnapshot, "
    "CreateSnapshot keep it well formed; the unstable tail stays one consecutive log under overwrite-from-index and only matching (index, term) "
-   "acknowledgements drop a prefix (stale/ABA ones are ignored); raftLog.slice returns consecutive entries.", [])
+   "acknowledgements drop a prefix (stale/ABA ones are ignored); raftLog.slice returns consecutive entries. The storage stream runs random "
+   "Append / Compact / CreateSnapshot / ApplySnapshot sequences with Entries / Term / FirstIndex / LastIndex / Snapshot reads after every step on "
+   "MemoryStorage of /repo and on the model (which is proved to answer as the abstract log), errors and panics included.", [],
+   {"pure": {"storage": {"tags": ["ST"], "exact": ["ST"]}},
+    "rule_extra": "storage stream: 3000 (thorough 50000) random sequences of 4..18 operations"})
 _p("C19", "proof",
    "The model is a function of (state, input, draws) and the quorum decisions are proved independent of iteration order (Props/C19.v). The tie for "
    "this property is the code against itself: every schedule is executed twice in separate instances and the complete traces (every Ready, "
